@@ -258,21 +258,22 @@ Lemma step_rename_unfold cf c p q n rp S :
   tame cf c = true -> map (cf_fold cf) p = n :: rp -> lookup (n :: rp) (c_root c) = Some S ->
   step cf c (ORename p q) =
   let c1 := with_root c (remove (n :: rp) (c_root c)) in
-  insert_node cf (snd (delete_loc c1 (loc_path cf c1 q))) S q.
+  insert_node cf (snd (delete_loc c1 (loc_path cf c1 q))) S (map (cf_fold cf) q).
 Proof.
   intros Ht Hp Hl. unfold step. rewrite Ht. cbn [negb]. unfold op_rename, loc_path. rewrite Hp, Hl. cbv iota beta. rewrite Hl. reflexivity.
 Qed.
 
 (* rename moves the whole subtree: the very same node (with everything below it) is found at the new path *)
 Theorem rename_moves_subtree cf c p q S :
+  (forall n, cf_fold cf (cf_fold cf n) = cf_fold cf n) ->
   Inv c -> tame cf c = true -> n_id (c_root c) <> None ->
-  map (cf_fold cf) p <> [] -> q <> [] -> cf_fold cf (last q 0%N) = last q 0%N ->
+  map (cf_fold cf) p <> [] -> q <> [] ->
   lookup (map (cf_fold cf) p) (c_root c) = Some S ->
   fst (step cf c (ORename p q)) = ROk ->
   lookup (map (cf_fold cf) q) (c_root (snd (step cf c (ORename p q)))) = Some S /\
   c_ghosts (snd (step cf c (ORename p q))) = c_ghosts c.
 Proof.
-  intros HI Ht Hroot Hp Hq Hlast Hl.
+  intros Hidem HI Ht Hroot Hp Hq Hl.
   destruct (map (cf_fold cf) p) as [|n rp] eqn:Ep; [congruence|]. clear Hp.
   rewrite (step_rename_unfold cf c p q n rp S Ht Ep Hl). cbv zeta.
   set (c1 := with_root c (remove (n :: rp) (c_root c))).
@@ -281,7 +282,14 @@ Proof.
   destruct (delete_loc_spec c1 (loc_path cf c1 q)) as [Hg2 [Hv2 HI2]]. specialize (HI2 HI1).
   set (c2 := snd (delete_loc c1 (loc_path cf c1 q))) in *.
   intros Hok.
-  destruct (insert_node_fresh cf c2 S q HI2 Hq Hlast) as [A B]; [|exact Hok|].
+  assert (Hq' : map (cf_fold cf) q <> []) by (destruct q; [congruence|discriminate]).
+  assert (Hlast : cf_fold cf (last (map (cf_fold cf) q) 0%N) = last (map (cf_fold cf) q) 0%N).
+  { clear -Hidem Hq. induction q as [|a q IH]; [congruence|]. destruct q as [|b q]; [simpl; apply Hidem|].
+    change (last (map (cf_fold cf) (a :: b :: q)) 0%N) with (last (map (cf_fold cf) (b :: q)) 0%N).
+    apply IH. discriminate. }
+  assert (Hmm : map (cf_fold cf) (map (cf_fold cf) q) = map (cf_fold cf) q).
+  { rewrite map_map. apply map_ext. exact Hidem. }
+  destruct (insert_node_fresh cf c2 S (map (cf_fold cf) q) HI2 Hq' Hlast) as [A B]; [|exact Hok|].
   - intros o Ho.
     assert (HS : has_id (c_root c) (n :: rp) o) by (exists S; auto).
     assert (Hinfo : info (c_root c2) = info (c_root c)).
@@ -293,25 +301,26 @@ Proof.
       assert (H0 : has_id (c_root c) [] (rid c)).
       { exists (c_root c). split; [reflexivity|]. unfold rid. rewrite Er. reflexivity. }
       pose proof (ids_unique c _ _ _ HI H0 HS). discriminate.
-    + intros q' Hq'. apply (view_sub_ids _ _ Hv2) in Hq'. unfold c1 in Hq'. simpl in Hq'.
+    + intros q' Hq0. apply (view_sub_ids _ _ Hv2) in Hq0. unfold c1 in Hq0. simpl in Hq0.
       change (match rp with [] => del_kid n (c_root c) | _ :: _ => descend n (remove rp) (c_root c) end)
-        with (remove (n :: rp) (c_root c)) in Hq'.
-      apply has_id_remove in Hq' as [H1 H2]; [|discriminate].
+        with (remove (n :: rp) (c_root c)) in Hq0.
+      apply has_id_remove in Hq0 as [H1 H2]; [|discriminate].
       assert (q' = n :: rp) by (apply (ids_unique c _ _ o HI); assumption). subst q'.
       rewrite prefixb_refl in H2. discriminate.
-  - split; [exact A|]. rewrite B, Hg2. reflexivity.
+  - rewrite Hmm in A. split; [exact A|]. rewrite B, Hg2. reflexivity.
 Qed.
 
 (* consequence in terms of the getters: every relative path below the old place answers at the new place *)
 Corollary rename_moves_lookups cf c p q S rel :
+  (forall n, cf_fold cf (cf_fold cf n) = cf_fold cf n) ->
   Inv c -> tame cf c = true -> n_id (c_root c) <> None ->
-  map (cf_fold cf) p <> [] -> q <> [] -> cf_fold cf (last q 0%N) = last q 0%N ->
+  map (cf_fold cf) p <> [] -> q <> [] ->
   lookup (map (cf_fold cf) p) (c_root c) = Some S ->
   fst (step cf c (ORename p q)) = ROk ->
   get_oid cf (snd (step cf c (ORename p q))) (q ++ rel) = get_oid cf c (p ++ rel).
 Proof.
-  intros HI Ht Hr Hp Hq Hlast Hl Hok.
-  destruct (rename_moves_subtree cf c p q S HI Ht Hr Hp Hq Hlast Hl Hok) as [A _].
+  intros Hidem HI Ht Hr Hp Hq Hl Hok.
+  destruct (rename_moves_subtree cf c p q S Hidem HI Ht Hr Hp Hq Hl Hok) as [A _].
   unfold get_oid, loc_path. rewrite !map_app, !lookup_app, A, Hl.
   destruct (lookup (map (cf_fold cf) rel) S) as [x|] eqn:E; simpl.
   - rewrite !lookup_app, A, Hl, E. reflexivity.
